@@ -95,6 +95,10 @@ func TestC10(t *testing.T) {
 				one = tg.Keys[len(tg.Keys)-1][keyIndex(tg.Via[len(tg.Via)-2], f)]
 			} else if f.Kind == model.FLeafList {
 				n := rapid.IntRange(1, 3).Draw(rt, "ll#")
+				// now and then the empty JSON array: it replaces the leaf-list by nothing
+				if tg.Exists && rapid.IntRange(0, 3).Draw(rt, "emptyarray") == 0 {
+					n = 0
+				}
 				seen := map[string]bool{}
 				for len(many) < n {
 					x := model.GenVal(rt, v, f.Type, o, "val")
@@ -109,6 +113,9 @@ func TestC10(t *testing.T) {
 				one = model.GenVal(rt, v, f.Type, o, "val")
 			}
 			tv, form := payload(rt, f, one, many)
+			if f.Kind == model.FLeafList && len(many) == 0 {
+				tv, form = model.JSONIETFTV([]byte("[]")), "json_ietf_empty_array"
+			}
 			p := model.PathProto(tg.Elems)
 			step := fmt.Sprintf("SetNode(%s, %s) [%s]", model.PathString(p), strings.TrimSpace(tv.String()), form)
 			hist = append(hist, step)
@@ -149,6 +156,22 @@ func TestC10(t *testing.T) {
 			// model update
 			owner := model.Ensure(m, tg)
 			want := ""
+			if f.Kind == model.FLeafList && len(many) == 0 {
+				// an empty leaf-list and an absent one are the same thing in YANG: GetNode may find
+				// nothing, or an empty slice, but none of the previous members
+				delete(owner.LL, f.Name)
+				nodes, gerr := ytypes.GetNode(rs, root, p)
+				for _, nd := range nodes {
+					if rv := reflect.ValueOf(nd.Data); gerr == nil && rv.IsValid() && rv.Kind() == reflect.Slice && rv.Len() > 0 {
+						rt.Fatalf("GetNode(%s) after SetNode with the empty JSON array still holds %s\n%s", model.PathString(p), nodeData(v, f, nd.Data), desc())
+					}
+				}
+				got := model.ObserveNorm(v, root)
+				if d := model.Diff(m.Clone().Normalize(), got, model.DiffOpts{LooseEnum: true}); len(d) > 0 {
+					rt.Fatalf("after %s the tree differs from model + write:\n  %s\n%s", step, th.JoinDiff(d), desc())
+				}
+				continue
+			}
 			if f.Kind == model.FLeafList {
 				owner.LL[f.Name] = many
 				want = "[" + joinCanon(many) + "]"
